@@ -212,6 +212,14 @@ def run_case(case):
                     if len(syms) != len(set(syms)):
                         # mechanism feature: a capping choice between several compatible end groups exists
                         cls = "c19.value-differs.partner-weight-normalised-within-candidate-token"
+                if cls == "c19.value-differs" and start == "prefix" and gen.parse_fragment(tail).to_text() == blocks[-1][0]:
+                    # mechanism feature: the suffix has the same atoms as the last block's unit; the search also accepts
+                    # "one more unit and no suffix" (a unit with an unmatched descriptor at the chain end)
+                    alt = 1.0
+                    for bi, (r, (u, m), n) in enumerate(zip(refs, blocks, lengths)):
+                        alt *= pi_n(r, m, n + (1 if bi == len(blocks) - 1 else 0))
+                    if abs(got - (want + alt)) <= 1e-12 + max(fam_tol, 1e-9) * abs(got):
+                        cls = "c19.value-differs.chain-end-unit-without-suffix-also-matched"
                 gauss_n1 = any(e.dist.family == "gauss" and n == 1 for (i, e), n in zip(stoch, lengths))
                 if gauss_n1 and cls == "c19.value-differs":
                     # mechanism feature: a single-unit block under a gauss law (the interval starts at 0 instead of -inf)
